@@ -353,37 +353,49 @@ def c16(inp, rng, out):
                     mism.add(key.replace("C15:", "C16:from_string:", 1), what, dict(ex, obs=obs))
                 w = s if case["slots"] in ("w", "wr") else None
                 rd = s if case["slots"] in ("r", "wr") else None
-                tag = case["kind"]
-                try:
-                    node = g.make_nodemaker().create_from_cap(w, rd, deep_immutable=case["deep"])
-                except Exception as e:
-                    mism.add("C16:create_from_cap:%s:exception" % tag, "create_from_cap raised %s" % type(e).__name__, ex)
-                    continue
-                cls = type(node).__name__
-                if cls != case["cls"]:
-                    mism.add("C16:create_from_cap:%s:class" % tag, "node class %s, expected %s" % (cls, case["cls"]), ex)
-                    continue
-                try:
-                    canon = b"".join(pieces[case["lo"] - 1:case["hi"]])
-                    if cls == "UnknownNode":
-                        check_unknown(mism, "C16:create_from_cap:UnknownNode", node, case["un"], {"rw": pieces, "ro": pieces}, ex)
-                    else:
-                        if hasattr(node, "is_readonly") and bool(node.is_readonly()) != case["flags"]["ro"]:
-                            mism.add("C16:create_from_cap:%s:is_readonly" % tag, "node.is_readonly() is %s" % node.is_readonly(), ex)
-                        if bool(node.is_mutable()) != case["flags"]["mut"]:
-                            mism.add("C16:create_from_cap:%s:is_mutable" % tag, "node.is_mutable() is %s" % node.is_mutable(), ex)
-                        if hasattr(node, "get_uri"):
-                            if node.get_uri() != canon:
-                                mism.add("C16:create_from_cap:%s:uri" % tag, "node.get_uri() is not the canonical cap string", ex)
-                            wu = node.get_write_uri()
-                            if wu != (None if case["flags"]["ro"] else canon):
-                                mism.add("C16:create_from_cap:%s:write_uri" % tag, "node.get_write_uri() = %r" % (wu,), ex)
-                            ru = node.get_readonly_uri()
-                            okp = ru is not None and ru.startswith(b"URI:" + case["ro_kind"].encode() + b":")
-                            if not okp or (case["ro_kind"] == case["kind"] and ru != canon) or (case["ro_kind"] != case["kind"] and canon.split(b":")[2] in ru):
-                                mism.add("C16:create_from_cap:%s:readonly_uri" % tag, "node.get_readonly_uri() = %r" % (ru,), ex)
-                except Exception as e:
-                    mism.add("C16:create_from_cap:%s:exception" % tag, "inspecting the node raised %s: %s" % (type(e).__name__, str(e)[:100]), ex)
+                for mode in ("cold", "warm"):
+                  # warm: the same NodeMaker has already opened the bare cap (prefixes stripped) and still holds the
+                  # nodes, so its node cache is populated: an alleged-read-only spelling must not get the cached writeable node
+                  nm = g.make_nodemaker()
+                  keep = []
+                  if mode == "warm":
+                      bare = b"".join(pieces[case["lo"] - 1:case["hi"]]) if case["kind"] != "Unknown" else s.replace(b"ro.", b"", 1).replace(b"imm.", b"", 1)
+                      for a in ((bare, None), (None, bare)):
+                          try:
+                              keep.append(nm.create_from_cap(a[0], a[1]))
+                          except Exception:
+                              pass
+                  tag = case["kind"] + (":warm_cache" if mode == "warm" else "")
+                  try:
+                      node = nm.create_from_cap(w, rd, deep_immutable=case["deep"])
+                  except Exception as e:
+                      mism.add("C16:create_from_cap:%s:exception" % tag, "create_from_cap raised %s" % type(e).__name__, ex)
+                      continue
+                  cls = type(node).__name__
+                  if cls != case["cls"]:
+                      mism.add("C16:create_from_cap:%s:class" % tag, "node class %s, expected %s" % (cls, case["cls"]), ex)
+                      continue
+                  try:
+                      canon = b"".join(pieces[case["lo"] - 1:case["hi"]])
+                      if cls == "UnknownNode":
+                          check_unknown(mism, "C16:create_from_cap:UnknownNode", node, case["un"], {"rw": pieces, "ro": pieces}, ex)
+                      else:
+                          if hasattr(node, "is_readonly") and bool(node.is_readonly()) != case["flags"]["ro"]:
+                              mism.add("C16:create_from_cap:%s:is_readonly" % tag, "node.is_readonly() is %s" % node.is_readonly(), ex)
+                          if bool(node.is_mutable()) != case["flags"]["mut"]:
+                              mism.add("C16:create_from_cap:%s:is_mutable" % tag, "node.is_mutable() is %s" % node.is_mutable(), ex)
+                          if hasattr(node, "get_uri"):
+                              if node.get_uri() != canon:
+                                  mism.add("C16:create_from_cap:%s:uri" % tag, "node.get_uri() is not the canonical cap string", ex)
+                              wu = node.get_write_uri()
+                              if wu != (None if case["flags"]["ro"] else canon):
+                                  mism.add("C16:create_from_cap:%s:write_uri" % tag, "node.get_write_uri() = %r" % (wu,), ex)
+                              ru = node.get_readonly_uri()
+                              okp = ru is not None and ru.startswith(b"URI:" + case["ro_kind"].encode() + b":")
+                              if not okp or (case["ro_kind"] == case["kind"] and ru != canon) or (case["ro_kind"] != case["kind"] and canon.split(b":")[2] in ru):
+                                  mism.add("C16:create_from_cap:%s:readonly_uri" % tag, "node.get_readonly_uri() = %r" % (ru,), ex)
+                  except Exception as e:
+                      mism.add("C16:create_from_cap:%s:exception" % tag, "inspecting the node raised %s: %s" % (type(e).__name__, str(e)[:100]), ex)
             else:
                 stats["un"] += 1
                 pcs = {}
